@@ -126,6 +126,12 @@ def run(ctx):
                     heads = [h for h in g.stmt_nodes() if h.kind == "iter" and any(x is c for x in ast.walk(h.ast))]
                     r = g.reachable(body0, avoid_nodes=heads)
                     ok = not any(an in r for an, _ in appends) and g.raise_exit not in g.reachable(body0, avoid_nodes=heads, edge_ok=lambda a, k, b: k != "e")
+                    # ... and the sweep goes on with the next stale id: the handler sits inside the per-id loop
+                    cont = bool(heads) and heads[0] in g.reachable(body0, edge_ok=lambda a, k, b: k != "e")
+                    ctx.check(cont, "R19.2", f.short, "sweep-continues-after-lost-race",
+                              message="after losing the compare-and-set on one stale trial (UpdateFinishedTrialError) the sweep does not go on to the next id: the remaining "
+                                      "stale trials this worker noticed stay RUNNING, with no callback and no retry",
+                              how="the except arm leads back to the head of the per-id loop")
         ctx.check(ok, "R19.2", f.short, "loser-tolerated",
                   message="the CAS call is not wrapped by `except UpdateFinishedTrialError` (a worker losing the race would crash its "
                           "optimize loop) or the handler appends the id anyway",
@@ -207,7 +213,20 @@ def run(ctx):
     ctx.check(any(x.endswith("TrialModel.study_id == study_id") for x in filters), "R19.4", f.short, "filter-study",
               message="stale query does not restrict to the given study", how=".filter(study_id == study_id)")
     apps = [n for n in g.stmt_nodes() for c in n.calls() if isinstance(c.func, ast.Attribute) and c.func.attr == "append" and norm(c.func.value) == "stale_trial_ids"]
-    ctx.require(apps, "R19.4: result append not found")
+    if not apps:
+        # the selection may have been pushed into SQL: then the selected column must be a *trial* id and the age
+        # condition a strict comparison in the filter (trials without a heartbeat drop out of the inner join)
+        qcols = [c.args[0] for c in own_nodes(f.node) if isinstance(c, ast.Call) and isinstance(c.func, ast.Attribute) and c.func.attr == "query" and c.args]
+        id_cols = [q for q in qcols if isinstance(q, ast.Attribute) and q.attr.endswith("_id")]
+        ctx.require(id_cols, "R19.4: result append not found and no id column is selected in SQL")
+        for q in id_cols:
+            ctx.check(q.attr == "trial_id", "R19.4", f.short, "returns-trial-ids",
+                      message=f"the stale query selects `{norm(q)}`: what it returns are not trial ids, so a different trial than the stale one is failed and retried "
+                              f"(the two id sequences only coincide while every trial records its first heartbeat in creation order)",
+                      how="the selected id column is <Model>.trial_id", where=where(f, q))
+        strict = any("heartbeat" in x and "grace_period" in x and (" < " in x or " > " in x) and "<=" not in x and ">=" not in x for x in filters)
+        ctx.check(strict, "R19.4", f.short, "strictly-older-than-grace", message="the SQL age condition is missing or not strict", how="heartbeat < now - grace (strict)")
+        return _c19_tail(ctx, p)
     heads = [h for h in g.stmt_nodes() if h.kind == "iter"]
     ctx.require(len(heads) == 1, "R19.4: expected one loop over running trials")
     body0 = [m for k, m in heads[0].succ if k == "loop"]
@@ -248,7 +267,10 @@ def run(ctx):
             if isinstance(c.func, ast.Attribute) and c.func.attr == "append":
                 lv = heads[0].ast.target.id if isinstance(heads[0].ast.target, ast.Name) else "?"
                 ctx.check(norm(c.args[0]) == f"{lv}.trial_id", "R19.4", f.short, "appends-this-trial", message="appends a different id", how="loop trial's id")
+    return _c19_tail(ctx, p)
 
+
+def _c19_tail(ctx, p):
     # ------------------------------------------------------------ R19.5 retry construction
     ctx.rule("R19.5", "RetryFailedTrialCallback: history appended before the max_retry test; add_trial dominated by it; "
              "WAITING trial built from the failed trial unchanged")
